@@ -43,6 +43,9 @@ type genOpts struct {
 	MaxStmts int
 	Closures bool
 	Modules  bool
+	// NoLoopClosures: no function literal inside a loop at global scope (the documented
+	// scope-dependent case: a closure outliving the iteration that declared a captured variable)
+	NoLoopClosures bool
 }
 
 type gen struct {
@@ -563,7 +566,7 @@ func (g *gen) stmt() []*Node {
 		g.pop()
 		return []*Node{ForIn(kn, vn, it, body)}
 	case c < 18: // function definition
-		if !g.o.Closures || g.fdepth >= 2 {
+		if !g.o.Closures || g.fdepth >= 2 || (g.o.NoLoopClosures && g.loops > 0) {
 			break
 		}
 		ret := []kind{kInt, kInt, kStr, kBool, kArr}[g.r.Intn(5)]
@@ -594,7 +597,7 @@ func (g *gen) stmt() []*Node {
 			return []*Node{ExprS(Call(Id("delete"), Id(g.pick(vs).name), Str(keyPool[g.r.Intn(len(keyPool))])))}
 		}
 	case c < 22: // counter closure factory
-		if !g.o.Closures || g.fdepth >= 1 {
+		if !g.o.Closures || g.fdepth >= 1 || (g.o.NoLoopClosures && g.loops > 0) {
 			break
 		}
 		mk, c1, r1, r2 := g.fresh("mk"), g.fresh("c"), g.fresh("v"), g.fresh("v")
@@ -607,7 +610,7 @@ func (g *gen) stmt() []*Node {
 			Def(r1, Call(Id(c1))), Def(r2, Bin("+", Call(Id(c1)), Call(Call(Id(mk), Int(10))))),
 		}
 	case c < 23: // guarded recursion
-		if !g.o.Closures || g.fdepth >= 1 {
+		if !g.o.Closures || g.fdepth >= 1 || (g.o.NoLoopClosures && g.loops > 0) {
 			break
 		}
 		f, n, r := g.fresh("rec"), g.fresh("n"), g.fresh("v")
